@@ -43,7 +43,7 @@ func init() {
 				BudgetViolation: true, MaxSteps: 400_000},
 			{Name: "VxC15Step", Pkg: "github.com/goplus/xgo/scanner", Files: []string{"c15/c15.go"},
 				Quick: map[string]int{"N": 2, "ASCII": 1, "T": 3}, Thorough: map[string]int{"N": 3, "ASCII": 1, "T": 3},
-				Variants: c15Variants(43), BudgetViolation: true, MaxSteps: 400_000},
+				Variants: c15Variants(49), BudgetViolation: true, MaxSteps: 400_000},
 		},
 	})
 
@@ -61,7 +61,7 @@ func init() {
 			{Name: "VxC16", Pkg: "github.com/goplus/xgo/scanner", Files: []string{"c16/c16.go"},
 				Quick: map[string]int{"N": 2, "ASCII": 1, "KF_TILDE": 0, "KF_BANG": 0, "KF_ELLIPSIS": 0, "KF_AUTOSEMI_COMMENT": 0},
 				Thorough: map[string]int{"N": 3, "ASCII": 1, "KF_TILDE": 0, "KF_BANG": 0, "KF_ELLIPSIS": 0, "KF_AUTOSEMI_COMMENT": 0},
-				Variants: c15Variants(42), MaxSteps: 600_000},
+				Variants: c15Variants(50), MaxSteps: 600_000},
 		},
 	})
 
@@ -184,9 +184,9 @@ func init() {
 		},
 		Harnesses: []harnessSpec{
 			{Name: "VxC24", Pkg: "github.com/goplus/xgo/format/formatutil", Files: []string{"c24/c24.go"},
-				Quick: map[string]int{"K": 3, "NT": 16, "FMT": 0}, Thorough: map[string]int{"K": 4, "NT": 16, "FMT": 0}, MaxSteps: 20_000_000},
+				Quick: map[string]int{"K": 3, "NT": 16, "FMT": 0, "LEAD": 0}, Thorough: map[string]int{"K": 4, "NT": 16, "FMT": 0, "LEAD": 0}, MaxSteps: 20_000_000},
 			{Name: "VxC24", Pkg: "github.com/goplus/xgo/format/formatutil", Files: []string{"c24/c24.go"},
-				Quick: map[string]int{"K": 2, "NT": 16, "FMT": 1}, Thorough: map[string]int{"K": 3, "NT": 16, "FMT": 1}, MaxSteps: 20_000_000},
+				Quick: map[string]int{"K": 2, "NT": 16, "FMT": 1, "LEAD": 1}, Thorough: map[string]int{"K": 3, "NT": 16, "FMT": 1, "LEAD": 1}, MaxSteps: 20_000_000},
 		},
 	})
 
@@ -209,7 +209,7 @@ func init() {
 	// ---------------------------------------------------------------- C36
 	register(&checkSpec{
 		ID:   "C36",
-		Rule: "two arbitrary directory states A and B (the hash is a function of the state, so any history of creations/edits/renames/deletions reduces to a pair of states): up to K entries each, names = concrete prefix (\"\", _, a, a_test, m.) + up to L symbolic bytes, IsDir, size and mtime symbolic; the real dirHash/canCl/path.Ext/modfile.ClassExt and the fmt.Fprintf record format run over a listing model; assert transcripts equal <=> relevant projections equal (both directions)",
+		Rule: "two arbitrary directory states A and B (the hash is a function of the state, so any history of creations/edits/renames/deletions reduces to a pair of states): up to K entries each, names = concrete prefix (\"\", _, a, m.) + up to L symbolic bytes + concrete ending (\"\", .go, .gox, _test.gox, .spx, .txt), IsDir, size and mtime symbolic; the real dirHash/canCl/path.Ext/modfile.ClassExt and the fmt.Fprintf record format run over a listing model; assert transcripts equal <=> relevant projections equal (both directions)",
 		Assumptions: []string{
 			"sha256 replaced by a transcript recorder: hash equality is identified with equality of the hashed bytes (no SHA-256 collisions)",
 			"os.ReadDir replaced by a listing model returning distinct names in sorted order; Info() never fails; Module.IsClass replaced by the default module's class extensions (.spx .gsh _test.gox) - both stubs are cross-validated natively each run (real directories, real os.ReadDir/sha256/default module) on sampled path models",
@@ -217,7 +217,7 @@ func init() {
 		},
 		Harnesses: []harnessSpec{
 			{Name: "VxC36", Pkg: "github.com/goplus/xgo/tool", Files: []string{"c36/c36.go"},
-				Quick: map[string]int{"K": 1, "L": 3, "R": 300}, Thorough: map[string]int{"K": 2, "L": 1, "R": 20}, MaxSteps: 3_000_000,
+				Quick: map[string]int{"K": 1, "L": 2, "R": 300}, Thorough: map[string]int{"K": 2, "L": 1, "R": 20}, MaxSteps: 3_000_000,
 				Overrides: map[string]string{"os.ReadDir": "vxReadDir", "crypto/sha256.New": "vxNewHash", "(*github.com/goplus/mod/xgomod.Module).IsClass": "vxIsClass"}},
 		},
 	})
